@@ -6,6 +6,7 @@ package main
 // reference tree keep their identity (rules name them explicitly).
 
 import (
+	"go/constant"
 	"go/token"
 	"go/types"
 	"strings"
@@ -685,4 +686,367 @@ func typesPkgOf(fn *ssa.Function) *types.Package {
 		break
 	}
 	return nil
+}
+
+// ---------------------------------------------------------------------------
+// cell promotion: a local that is captured by a closure stays a memory cell in SSA
+// form.  When every closure only reads it, the stores of the enclosing function are
+// its only definitions and a load can be presented like the phi it would have been.
+
+// promotableCell returns the Alloc behind a load when all writes to it are stores
+// in the allocating function itself.
+func promotableCell(v ssa.Value) *ssa.Alloc {
+	u, ok := v.(*ssa.UnOp)
+	if !ok || u.Op != token.MUL {
+		return nil
+	}
+	a, ok := u.X.(*ssa.Alloc)
+	if !ok || a.Referrers() == nil {
+		return nil
+	}
+	var readOnly func(addr ssa.Value, depth int) bool
+	readOnly = func(addr ssa.Value, depth int) bool {
+		if addr.Referrers() == nil || depth > 3 {
+			return false
+		}
+		for _, r := range *addr.Referrers() {
+			switch x := r.(type) {
+			case *ssa.UnOp:
+				if x.Op != token.MUL {
+					return false
+				}
+			case *ssa.DebugRef:
+			case *ssa.MakeClosure:
+				cl, _ := x.Fn.(*ssa.Function)
+				if cl == nil {
+					return false
+				}
+				for i, b := range x.Bindings {
+					if b == addr && (i >= len(cl.FreeVars) || !readOnly(cl.FreeVars[i], depth+1)) {
+						return false
+					}
+				}
+			default:
+				return false
+			}
+		}
+		return true
+	}
+	for _, r := range *a.Referrers() {
+		switch x := r.(type) {
+		case *ssa.Store:
+			if x.Addr != a {
+				return nil // the address itself is stored somewhere
+			}
+		case *ssa.UnOp, *ssa.DebugRef:
+		case *ssa.MakeClosure:
+			cl, _ := x.Fn.(*ssa.Function)
+			if cl == nil {
+				return nil
+			}
+			for i, b := range x.Bindings {
+				if b == ssa.Value(a) && (i >= len(cl.FreeVars) || !readOnly(cl.FreeVars[i], 0)) {
+					return nil
+				}
+			}
+		default:
+			return nil
+		}
+	}
+	return a
+}
+
+// cellIncomings presents the load of a promotable cell as the merge it stands for:
+// the single store that reaches it, or one entry per predecessor edge of the nearest
+// merge block (Val is the stored value when exactly one store reaches over that edge,
+// the load itself otherwise).
+func cellIncomings(load ssa.Value) []Incoming {
+	a := promotableCell(load)
+	if a == nil {
+		return nil
+	}
+	u := load.(*ssa.UnOp)
+	fn := u.Parent()
+	lastStore := func(b *ssa.BasicBlock, before ssa.Instruction) *ssa.Store {
+		var last *ssa.Store
+		for _, in := range b.Instrs {
+			if in == before {
+				break
+			}
+			if st, ok := in.(*ssa.Store); ok && st.Addr == a {
+				last = st
+			}
+		}
+		return last
+	}
+	// reaching stores at block exit (nil = the zero value at the Alloc)
+	out := map[*ssa.BasicBlock]map[*ssa.Store]bool{}
+	for changed := true; changed; {
+		changed = false
+		for _, b := range fn.Blocks {
+			cur := map[*ssa.Store]bool{}
+			if st := lastStore(b, nil); st != nil {
+				cur[st] = true
+			} else {
+				if len(b.Preds) == 0 {
+					cur[nil] = true
+				}
+				for _, p := range b.Preds {
+					for s := range out[p] {
+						cur[s] = true
+					}
+				}
+			}
+			if len(cur) != len(out[b]) {
+				out[b] = cur
+				changed = true
+			}
+		}
+	}
+	if st := lastStore(u.Block(), u); st != nil {
+		return []Incoming{{Val: st.Val}}
+	}
+	cur := u.Block()
+	for len(cur.Preds) == 1 {
+		p := cur.Preds[0]
+		if st := lastStore(p, nil); st != nil {
+			return []Incoming{{Val: st.Val}}
+		}
+		cur = p
+	}
+	// a merge over which the cell is unchanged since the immediate dominator is not
+	// where its phi would stand: continue from the dominator
+	hasStore := func(b *ssa.BasicBlock) bool { return lastStore(b, nil) != nil }
+	for len(cur.Preds) > 0 {
+		if len(cur.Preds) == 1 {
+			p := cur.Preds[0]
+			if st := lastStore(p, nil); st != nil {
+				return []Incoming{{Val: st.Val}}
+			}
+			cur = p
+			continue
+		}
+		d := cur.Idom()
+		if d == nil {
+			break
+		}
+		clean := true
+		seen := map[*ssa.BasicBlock]bool{cur: true}
+		var walk func(b *ssa.BasicBlock)
+		walk = func(b *ssa.BasicBlock) {
+			if seen[b] || !clean {
+				return
+			}
+			seen[b] = true
+			if b == d || hasStore(b) {
+				// back at the dominator (a loop) or a definition on the way
+				clean = false
+				return
+			}
+			for _, s := range b.Succs {
+				walk(s)
+			}
+		}
+		for _, s := range d.Succs {
+			walk(s)
+		}
+		if !clean {
+			break
+		}
+		if st := lastStore(d, nil); st != nil {
+			return []Incoming{{Val: st.Val}}
+		}
+		cur = d
+	}
+	if len(cur.Preds) == 0 {
+		return nil
+	}
+	var incs []Incoming
+	for _, p := range cur.Preds {
+		val := load
+		if len(out[p]) == 1 {
+			for s := range out[p] {
+				if s != nil {
+					val = s.Val
+				}
+			}
+		}
+		incs = append(incs, Incoming{Val: val, Pred: p, Blk: cur})
+	}
+	return incs
+}
+
+// refArgs returns the arguments of a call indexed by the positions the callee's
+// parameters had on the reference tree (receiver first).  For a callee whose arity is
+// unchanged (or that is not a reference function) this is the argument list itself;
+// when parameters were added, dropped or a receiver became a parameter, each reference
+// position is resolved through the parameter's name, and a position that no longer has
+// a counterpart holds a value no matcher accepts.
+func refArgs(c ssa.CallInstruction) []ssa.Value {
+	cc := c.Common()
+	callee := cc.StaticCallee()
+	if cc.IsInvoke() || callee == nil || callee.Parent() != nil {
+		return cc.Args
+	}
+	if refParams == nil {
+		refParams = loadAnchorParams()
+	}
+	names, ok := refParams[fnName(callee)]
+	if !ok || len(names) == len(callee.Params) || len(cc.Args) != len(callee.Params) {
+		return cc.Args
+	}
+	out := make([]ssa.Value, len(names))
+	for i, n := range names {
+		out[i] = unresolvedArg
+		for j, p := range callee.Params {
+			if p.Name() == n && n != "_" && n != "" {
+				out[i] = cc.Args[j]
+			}
+		}
+	}
+	return out
+}
+
+var unresolvedArg ssa.Value = ssa.NewConst(constant.MakeString("<argument without counterpart on this tree>"), types.Typ[types.String])
+
+// localStructFieldValues: fa addresses a field of a local struct variable (an Alloc of
+// struct type in fa's function) whose address is handed to new helpers.  The field's
+// values are those stored to it in the function itself and, through the corresponding
+// parameter, in those helpers.  nil when no helper writes the field (the load is then
+// resolved as before).
+func localStructFieldValues(fa *ssa.FieldAddr) []ssa.Value {
+	al, ok := fa.X.(*ssa.Alloc)
+	if !ok || al.Referrers() == nil {
+		return nil
+	}
+	if _, isStruct := al.Type().Underlying().(*types.Pointer).Elem().Underlying().(*types.Struct); !isStruct {
+		return nil
+	}
+	var vals []ssa.Value
+	helper := false
+	for _, r := range *al.Referrers() {
+		switch x := r.(type) {
+		case *ssa.FieldAddr:
+			if x.Field != fa.Field || x.Referrers() == nil {
+				continue
+			}
+			for _, rr := range *x.Referrers() {
+				if st, ok := rr.(*ssa.Store); ok && st.Addr == x {
+					vals = append(vals, st.Val)
+				}
+			}
+		case ssa.CallInstruction:
+			h := x.Common().StaticCallee()
+			if !isNewHelper(h) {
+				continue
+			}
+			for i, a := range x.Common().Args {
+				if a != ssa.Value(al) || i >= len(h.Params) {
+					continue
+				}
+				for _, g := range withClosures(h) {
+					for _, b := range g.Blocks {
+						for _, in := range b.Instrs {
+							st, ok := in.(*ssa.Store)
+							if !ok {
+								continue
+							}
+							if fb, ok := st.Addr.(*ssa.FieldAddr); ok && fb.Field == fa.Field && fb.X == ssa.Value(h.Params[i]) {
+								vals = append(vals, st.Val)
+								helper = true
+							}
+						}
+					}
+				}
+			}
+		}
+	}
+	if !helper {
+		return nil
+	}
+	return vals
+}
+
+// factOccurrences counts how often a fact pattern is decided in g: branch edges carrying
+// it, plus boolean values that entail it one way or the other without being branched on
+// (`return !ts.IsZero() && !info.CreatedAt.Before(ts)` in an extracted predicate).
+func factOccurrences(g *ssa.Function, fp FP) int {
+	n := len(factEdges(g, fp))
+	for _, b := range g.Blocks {
+		for _, in := range b.Instrs {
+			v, ok := in.(ssa.Value)
+			if !ok {
+				continue
+			}
+			if bt, isB := v.Type().Underlying().(*types.Basic); !isB || bt.Kind() != types.Bool {
+				continue
+			}
+			switch in.(type) {
+			case *ssa.Call, *ssa.BinOp:
+			default:
+				continue
+			}
+			// only values that are not themselves the condition of a branch (those were counted)
+			branched := false
+			if refs := v.Referrers(); refs != nil {
+				for _, r := range *refs {
+					if _, isIf := r.(*ssa.If); isIf {
+						branched = true
+					}
+				}
+			}
+			if branched {
+				continue
+			}
+			if valueEntails(v, true, []FP{fp}, 3) || valueEntails(v, false, []FP{fp}, 3) {
+				n++
+			}
+		}
+	}
+	return n
+}
+
+// delegateOf: a reference function whose body was moved wholesale into a new function
+// (`func (s *Store) F(ctx, db) error { return f(ctx, db, s.levels, ...) }`) is analysed
+// where its body now lives.  fn is such a wrapper when it is a single block that returns
+// exactly the results of one call to a new helper.
+func delegateOf(fn *ssa.Function) *ssa.Function {
+	for d := 0; d < 2; d++ {
+		if fn == nil || len(fn.Blocks) != 1 || isNewHelper(fn) {
+			return fn
+		}
+		ret, ok := lastInstr(fn.Blocks[0]).(*ssa.Return)
+		if !ok || len(ret.Results) == 0 {
+			return fn
+		}
+		var call *ssa.Call
+		for _, r := range ret.Results {
+			var c *ssa.Call
+			switch x := r.(type) {
+			case *ssa.Call:
+				c = x
+			case *ssa.Extract:
+				c, _ = x.Tuple.(*ssa.Call)
+			}
+			if c == nil || (call != nil && c != call) {
+				return fn
+			}
+			call = c
+		}
+		h := call.Call.StaticCallee()
+		if !isNewHelper(h) || h.Blocks == nil {
+			return fn
+		}
+		// nothing else of substance happens in the wrapper: no other call into the module
+		for _, k := range calls(fn) {
+			if k == ssa.CallInstruction(call) {
+				continue
+			}
+			if g := k.Common().StaticCallee(); g != nil && curProg != nil && curProg.InP(g) {
+				return fn
+			}
+		}
+		fn = h
+	}
+	return fn
 }
